@@ -5,6 +5,7 @@ import (
 
 	"github.com/pkg/errors"
 
+	"github.com/free5gc/ike/internal/verifhook"
 	"github.com/free5gc/ike/message"
 	"github.com/free5gc/ike/security"
 )
@@ -94,18 +95,22 @@ func calculateIntegrity(
 			return nil, errors.Errorf("CalcIKEChecksum() : IKE SA have nil Integ_r")
 		}
 		ikesaKey.Integ_i.Reset()
+		verifhook.At("ike.integrity.afterreset", len(originData))
 		if _, err := ikesaKey.Integ_i.Write(originData); err != nil {
 			return nil, errors.Wrapf(err, "CalcIKEChecksum()")
 		}
+		verifhook.At("ike.integrity.afterwrite", len(originData))
 		calculatedChecksum = ikesaKey.Integ_i.Sum(nil)
 	} else {
 		if ikesaKey.Integ_r == nil {
 			return nil, errors.Errorf("CalcIKEChecksum() : IKE SA have nil Integ_i")
 		}
 		ikesaKey.Integ_r.Reset()
+		verifhook.At("ike.integrity.afterreset", len(originData))
 		if _, err := ikesaKey.Integ_r.Write(originData); err != nil {
 			return nil, errors.Wrapf(err, "CalcIKEChecksum()")
 		}
+		verifhook.At("ike.integrity.afterwrite", len(originData))
 		calculatedChecksum = ikesaKey.Integ_r.Sum(nil)
 	}
 
@@ -211,6 +216,7 @@ func decryptMsg(
 	}
 
 	// Decrypt
+	verifhook.At("ike.decrypt.verified", len(msg))
 	encryptedData := encryptedPayload.EncryptedData[:len(encryptedPayload.EncryptedData)-checksumLength]
 	plainText, err := decryptPayload(encryptedData, ikesaKey, role)
 	if err != nil {
